@@ -217,6 +217,13 @@ func caseCands(c PCase) []PCase {
 			d.Input = s
 			out = append(out, d)
 		}
+		for i := range c.History {
+			if len(c.History) > 1 {
+				d := cloneCase(c)
+				d.History = append(d.History[:i], d.History[i+1:]...)
+				out = append(out, d)
+			}
+		}
 	case "c12":
 		for _, q := range progCands(*c.Prog) {
 			d := cloneCase(c)
@@ -225,6 +232,16 @@ func caseCands(c PCase) []PCase {
 			out = append(out, d)
 		}
 	case "c14":
+		if c.FreezeAt > 0 {
+			d := cloneCase(c)
+			d.FreezeAt = 0
+			out = append(out, d)
+			if c.FreezeAt > 1 {
+				d = cloneCase(c)
+				d.FreezeAt = c.FreezeAt / 2
+				out = append(out, d)
+			}
+		}
 		for i := range c.Clients {
 			if len(c.Clients) > 2 {
 				d := cloneCase(c)
@@ -507,12 +524,18 @@ func parsimCheck(e *Env, prop, mode string, plan parsimPlan) (int, error) {
 		cov["inputs_accepted"] = agg.Stats["accepted"]
 		cov["inputs_rejected"] = agg.Stats["rejected"]
 		cov["reference_steps_total"] = agg.Stats["ref_steps"]
+		cov["reuse_histories"] = agg.Stats["reuse_histories"]
+		cov["reuse_history_steps"] = agg.Stats["reuse_history_steps"]
+		cov["reuse_note"] = "1 case in 20 runs a memoising and a non-memoising instance side by side through a Reset history (2-10 steps); long histories of 513 and 131 073 steps whose rare inputs recur at multiples of 256 and 65 536 steps are part of the sweep"
 		cov["components_stub"] = []string{"none; the memo-table faults are woven at the three points named in DESIGN.md 2.2"}
 		ev.Assumptions = []string{"semantic predicates of the workload are pure functions of (id, offset)", "the fault points are found by name (memoize closure, `memoized, ok := memoization[…]`); if a change renames them the evidence reports 0 woven points and only the fault-free comparison remains"}
 	case "c12":
 		cov["rule"] = "one evaluation = one history (2–12 steps of Buffer=…; Reset(); Parse(); optional Execute/AST/print) on one long-lived instance with knobs Size/U/memo drawn per instance, each non-aborted step compared with a freshly constructed default instance given that input alone; odd run numbers inject aborts (panic in the n-th predicate/action callback, recovered by the client); non-trivial = the history contains an abort, a fail→success or success→fail transition or a shrinking input; distinct = digest of (parser, knobs, inputs, abort positions)"
 		cov["fault_kinds_fired"] = sumPrefix(agg.Stats, "fault_")
 		cov["probes"] = sumPrefix(agg.Stats, "probe_")
+		cov["marathon_histories"] = agg.Stats["marathon_histories"]
+		cov["marathon_steps"] = agg.Stats["marathon_steps"]
+		cov["marathon_note"] = "histories of 131 073 steps on one uint16 instance (rare inputs every 65 536 steps, a short filler in between), compared with fresh parsers at the rare steps and at samples: probes everything that counts operations in a value of type U"
 		cov["components_stub"] = []string{"none"}
 		ev.Assumptions = []string{"tokens after a failed parse are not compared (the property defines them for successful parses only)"}
 	case "c14":
@@ -522,6 +545,7 @@ func parsimCheck(e *Env, prop, mode string, plan parsimPlan) (int, error) {
 		cov["preemptions"] = agg.Stats["sched_preemptions"]
 		cov["distinct_site_adjacency_pairs"] = len(agg.Adjacent)
 		cov["runs_abandoned_at_step_cap"] = agg.Stats["abandoned"]
+		cov["freeze_windows_opened"] = agg.Stats["freeze_windows_opened"]
 		cov["goid_fast_path"] = agg.GoidFast
 		cov["cold_start_runs"] = coldN
 		cov["cold_start_note"] = "single-case worker processes in which the concurrent run precedes the solo references, so lazily initialised package-level state is met cold; repeated on the -race build"
